@@ -430,7 +430,7 @@ func checkKeyIO(c keyioCase) (err error) {
 		"without the final newline":               strings.Join(lines, "\n"),
 		"with BIND 9 timing fields":               txt + "Created: 20240101000000\nPublish: 20240101000000\nActivate: 20240101000000\n",
 		"with blank lines":                        strings.Join(lines, "\n\n") + "\n\n",
-		"with comment lines":                      "; made by the harness\n" + lines[0] + "\n; another comment\n" + strings.Join(lines[1:], "\n") + "\n",
+		"with comment lines":                      "; made by the harness: do not edit\n" + lines[0] + "\n; Created: never; another comment\n" + strings.Join(lines[1:], "\n") + "\n",
 		"with timing fields and no final newline": txt + "Created: 20240101000000",
 	}
 	vnames := make([]string, 0, len(variants))
